@@ -495,6 +495,11 @@ class Check:
         if self.violations:
             os.makedirs(os.path.join(REPLAYS, self.prop), exist_ok=True)
             seen = set()
+            if os.environ.get("VERIF_SUMMARY"):
+                import collections
+                cnt = collections.Counter(" ".join(k.split()[:3])[:60] for k, _, _ in self.violations)
+                for k, n in cnt.most_common(30):
+                    print(f"SUMMARY {n:6d} {k}")
             for key, desc, replay in self.violations[:20]:
                 h = hashlib.sha1(key.encode()).hexdigest()[:12]
                 if h in seen:
